@@ -326,7 +326,11 @@ struct ChunkFooter {
 /// For the canonical empty chunk to be `static`, its type must be `Sync`, which
 /// is the purpose of this wrapper type. This is safe because the empty chunk is
 /// immutable and never actually modified.
-#[repr(transparent)]
+///
+/// It is aligned to `CHUNK_ALIGN` (the largest supported `MIN_ALIGN`) because
+/// its address doubles as the bump finger of arenas that have not allocated a
+/// chunk yet, and zero-sized allocations are served from that finger.
+#[repr(C, align(16))]
 struct EmptyChunkFooter(ChunkFooter);
 
 unsafe impl Sync for EmptyChunkFooter {}
